@@ -564,35 +564,46 @@ func explain(missing, extra []kv) (hows string, leftover []kv, ok bool) {
 	used := make([]bool, len(missing))
 	set := map[string]bool{}
 	for _, e := range extra {
-		found := false
+		best, bestRank, bestHow := -1, 99, ""
 		for j, m := range missing {
 			if used[j] {
 				continue
 			}
-			h := ""
+			h, r := "", ""
 			switch {
 			case m.k == e.k:
-				if h = rel(m.v, e.v); h != "" {
-					h = "value-" + h
+				if r = rel(m.v, e.v); r != "" {
+					h = "value-" + r
 				}
 			case m.v == e.v:
-				if h = rel(m.k, e.k); h != "" {
-					h = "name-" + h
+				if r = rel(m.k, e.k); r != "" {
+					h = "name-" + r
 				}
 			default:
-				if a, b := rel(m.k, e.k), rel(m.v, e.v); a != "" && a == b {
-					h = "name-and-value-" + a
+				if a, b := rel(m.k, e.k), rel(m.v, e.v); a != "" && a == b && a != "altered" {
+					h, r = "name-and-value-"+a, a
 				}
 			}
-			if h != "" && h != "name-and-value-altered" {
-				used[j], found = true, true
-				set[h] = true
-				break
+			if h == "" {
+				continue
+			}
+			// prefer the most specific relation
+			rank := 0
+			switch r {
+			case "truncated", "extended":
+				rank = 1
+			case "altered":
+				rank = 2
+			}
+			if rank < bestRank {
+				best, bestRank, bestHow = j, rank, h
 			}
 		}
-		if !found {
+		if best < 0 {
 			return "", nil, false
 		}
+		used[best] = true
+		set[bestHow] = true
 	}
 	for j, m := range missing {
 		if !used[j] {
